@@ -32,3 +32,10 @@ func vParamsOf(e *mp4.EmsgBox) (p scte35.SpliceInsertParams, ok bool) {
 	p.AutoReturn = cmd.IsAutoReturn()
 	return p, true
 }
+
+// vMkSegmentWithEmsg: a real one-fragment segment (native side) whose fragment carries the emsg.
+func vMkSegmentWithEmsg(durs []uint32, e *mp4.EmsgBox) (*mp4.InitSegment, *mp4.MediaSegment) {
+	init, seg := vMkSegment(durs)
+	seg.Fragments[0].AddEmsg(e)
+	return init, seg
+}
